@@ -361,10 +361,15 @@ func main() {
 
 	c.Finish("exhaustive RawBytes.ReadAt / bytes.Reader.ReadAt for |b|<=5, |p|<=6, -2<=off<=|b|+2; random Range.Intersect/Exclude and Ranges.SortAndMerge " +
 		"(small window incl. zero-length/adjacent/duplicate/unsorted, plus uint64-overflowing ranges with distinct offsets); random reference lists " +
-		"(0..6 references over up to 4 artifacts out of: 3 RawBytes, 2 *biosimage.BIOSImage, 1 *main.regFile, 1 zz.Art; mappers nil/PhysMemMapper/" +
-		"shifting+splitting+failing custom mapper) through SortAndMerge, Exclude, RawBytes, Resolve, BySystemArtifact, Ranges; " +
+		"(0..6 references over up to 4 artifacts out of: 3 RawBytes, 2 *biosimage.BIOSImage, 1 *main.regFile, 1 zz.Art, the real *txtpublic.TXTPublic and *amdregisters.AMDRegisters; " +
+		"mappers nil/PhysMemMapper/shifting+splitting+failing custom mapper) through SortAndMerge, Exclude, RawBytes, Resolve, BySystemArtifact, Ranges; " +
+		"register files: the suite's TXT registers (random subsets, all of them, with/without TXT.PUBLIC.KEY) and registers of the harness' own with widths 1,2,3,4,8,16 placed as " +
+		"neighbours / with gaps, built by New or by hand (unsorted, an MSR among them, overlapping), AMD collections of 0..3 MP0 registers or hand-made runs; 3..8 ReadAt calls on ONE " +
+		"object (register starts, ends, insides, gaps; exact width, prefix, longer, runs); references to whole registers, neighbours in one reference / in two ranges / in two references, " +
+		"prefixes, mid-register starts, gaps, zero length, duplicates, mixed lists with image and in-line strings; 1..3 byte extractions per scene with every earlier result looked at again; " +
 		"programs: harness-made memory (1..3 lists of 0..6 references inside arrays of Reference structs with cells in front and spare capacity, range slices with " +
 		"own/shared backing arrays, spare capacity, nil) and 4..8 operations (BySystemArtifact, Ranges, Exclude incl. v.Exclude(v...), caller-made copy, SortAndMerge, Resolve, " +
-		"RawBytes, Reference.RawBytes, Ranges.SortAndMerge) with every result kept as a further variable, the whole memory re-read after every operation; " +
-		"a case is non-trivial when it has >=1 non-empty range (ReadAt: |b|>=1); distinct = distinct Gallina literal")
+		"RawBytes directly / through Data / ConvertedBytes / MeasuredData, Reference.RawBytes, Ranges.SortAndMerge, the caller overwriting a byte result) with every result kept " +
+		"(lists, ranges AND arrays of bytes), the whole memory, all byte results and all artifacts re-read after every operation; " +
+		"a case is non-trivial when it has >=1 non-empty range (ReadAt: |b|>=1 resp. >=1 register); distinct = distinct Gallina literal")
 }
